@@ -411,7 +411,7 @@ def variable_module(rng, n):
     """local.get/set/tee on params and locals of the four types (register and stack passed), global.get/set"""
     vals = {I32: int_grid(32, rng, n)[:10], I64: int_grid(64, rng, n)[:10], F32: float_grid(F32, rng, n)[:10], F64: float_grid(F64, rng, n)[:10]}
     G = []
-    for t, init in ((I32, "-7"), (I64, "-9000000000"), (F32, "1.5")):     # the WAT parser cannot read an f64 global initialiser
+    for t, init in ((I32, "-7"), (I64, "-9000000000"), (F32, "1.5"), (F64, "-2.25")):
         G.append("  (global $g_%s (mut %s) (%s.const %s))\n" % (t, t, t, init))
     G.append("  (global $c_i32 i32 (i32.const 123456))\n")
     F = []
@@ -422,12 +422,10 @@ def variable_module(rng, n):
                  "    local.get $y local.get $x drop\n  )\n" % (t, t, t, t, t, PRINTER[t]))
     body = ['  (func $main (export "_start")\n']
     for t in (I32, I64, F32, F64):
-        if t != F64:
-            body.append("    global.get $g_%s call %s\n" % (t, PRINTER[t]))
+        body.append("    global.get $g_%s call %s\n" % (t, PRINTER[t]))
         for v in vals[t]:
             body.append("    %s call $loc_%s call %s\n" % (push(t, v), t, PRINTER[t]))
-            if t != F64:
-                body.append("    %s global.set $g_%s global.get $g_%s call %s\n" % (push(t, v), t, t, PRINTER[t]))
+            body.append("    %s global.set $g_%s global.get $g_%s call %s\n" % (push(t, v), t, t, PRINTER[t]))
     body.append("    global.get $c_i32 call $p32\n")
     body.append("  )\n")
     return mod("".join(F) + "".join(body), extra="".join(G))
@@ -506,7 +504,7 @@ def control_module(rng, n):
     F.append("  (func $loopv (param $n i32) (result i64) (local $i i32) (local $acc i64)\n    i64.const 0 local.set $acc\n    loop $l\n      local.get $acc local.get $i i64.extend_i32_u local.get $i i64.extend_i32_u i64.mul i64.add local.set $acc\n"
              "      local.get $i i32.const 1 i32.add local.tee $i local.get $n i32.lt_u br_if $l\n    end\n    local.get $acc\n  )\n")
     F.append("  (func $nest (param $a i32) (param $b i32) (result i32)\n    local.get $a\n    if (result i32)\n      local.get $b\n      if (result i32)\n        i32.const 11\n      else\n        i32.const 10\n      end\n"
-             "    else\n      local.get $b\n      if (result i32)\n        i32.const 1\n      else\n        i32.const 0\n      end\n    end\n  )\n")
+             "    else\n      local.get $b\n      if (result i32)\n        i32.const 1\n      else\n        nop\n        i32.const 0\n      end\n    end\n  )\n")
     body = ['  (func $main (export "_start")\n']
     for v in (1, 2, 7, 27, 97, 871):
         body.append("    i64.const %d call $collatz call $p32\n" % v)
@@ -653,8 +651,8 @@ def br_if_twice_module():
 
 def global_float_module():
     """f32 global initial values are emitted through a decimal rendering"""
-    extra = "  (global $a f32 (f32.const 0.1))\n  (global $b f32 (f32.const 16777217.0))\n  (global $c f32 (f32.const 1e-10))\n  (global $d f32 (f32.const 3.4028234e38))\n"
-    body = '  (func $main (export "_start")\n    global.get $a call $pf32\n    global.get $b call $pf32\n    global.get $c call $pf32\n    global.get $d call $pf32\n  )\n'
+    extra = "  (global $a f32 (f32.const 0.1))\n  (global $b f32 (f32.const 16777217.0))\n  (global $c f32 (f32.const 1e-10))\n  (global $d f32 (f32.const 3.4028234e38))\n  (global $e f64 (f64.const 0.1))\n  (global $f f64 (f64.const 1e-300))\n"
+    body = '  (func $main (export "_start")\n    global.get $a call $pf32\n    global.get $b call $pf32\n    global.get $c call $pf32\n    global.get $d call $pf32\n    global.get $e call $pf64\n    global.get $f call $pf64\n  )\n'
     return mod(body, extra=extra)
 
 
